@@ -274,6 +274,8 @@ def call_builtin(fr, f, args: list, kwargs: dict, node: ast.AST | None) -> Any:
         raise AnalysisError("symbolic range")
     if name == "hasattr":
         obj, attr = args
+        if isinstance(obj, SObj):
+            return attr in obj.attrs or attr in obj.methods
         try:
             fr.getattr(obj, attr)
             if isinstance(obj, (pai.Inst, SObj)):
